@@ -235,3 +235,29 @@ def c07(run):
     run.exhaustive = True
     run.assumptions += [STD_GUARD, "exhaustive=true refers to the char<->UTF-8/u32 conversions (complete sweep); the "
                         "iterator state graphs are exhaustive within their string bounds only"]
+
+
+# ------------------------------------------------------------------------------------------- C09
+@check("C09", rule="one case = (type, range form, start, end): complete for u8 and i8 (all 65 536 pairs x {.., ..=} "
+                    "+ start..), char pairs within 6 of 0 / 0xD7FF|0xE000 / 0x10FFFF; each case checks the front and "
+                    "back item on the forward and Rev types, and for ranges of <= 12 values the complete forward, "
+                    "backward, reversed, alternating and for_each! sequences; wider integer types run the cases "
+                    "whose values project into their MIN/0/MAX neighbourhoods; non-trivial = non-empty range")
+def c09(run):
+    q = run.tier == "quick"
+    outs = []
+    for ty in ("u8", "i8", "char"):
+        out = vec("C09-RangeIter-%s.ndjson" % ty)
+        if os.path.exists(out):
+            os.remove(out)
+        run.mc("MC_RangeIter", "RangeIter.%s.cfg" % ty, env={"OUT": out}, heap="8g", timeout=3000)
+        outs.append(out)
+    run.sample_file(outs[2])
+    run.replay(outs, "RangeIter all pairs")
+    for ty in ("u16", "i16", "char"):
+        run.record_and_validate("RangeIter-" + ty, "Trace_RangeIter", "Trace_RangeIter.%s.cfg" % ty,
+                                n_files=2 if q else 6, n_events=4000 if q else 15000)
+    run.exhaustive = True
+    run.assumptions += [STD_GUARD, W8.replace("usize", "each wider integer type"),
+                        "exhaustive=true refers to u8 and i8 (all bound pairs); start.. is compared on prefixes that "
+                        "stay below T::MAX (stepping past it is a debug_assert in konst, profile-dependent in std)"]
